@@ -6,14 +6,16 @@ from common import cstr, cnat, clist, ctuple, cexn, log, run_coqc
 
 TRUSTED_BASE = [
     'the store is driven on the REAL file system inside work/C07 with injected remote / release services; every I/O boundary of a load (isfile, fetch, create temp, read, '
-    'write, os.replace, load) is intercepted by replacing module attributes of hpotk.store._api from the harness',
+    'write, close, os.replace, load) is intercepted by replacing module attributes of hpotk.store._api from the harness',
     'the model steps and the intercepted boundaries are aligned one to one; kills are os._exit in a forked child before boundary k (no flush, like SIGKILL); races are two or '
     'three threads released one boundary at a time by a scheduler that snapshots the store after every boundary',
+    'the names found under the store directory are classified inside Coq (Store.Paths.classify) and resolve_store_path is compared with Store.Paths.final_name; '
+    'a write can fail at write() or - buffered - at close() (two fault kinds of the model)',
     'PARTIAL: fsync / power-loss durability and non-POSIX rename semantics are outside the model (os.replace assumed atomic, mkstemp names unique and never a cache location); '
     'thread preemption inside a boundary is not explored',
 ]
 ASSUMPTIONS = ['remote content per (type, release) is fixed; release tags are compared as Python str']
-THEOREM = 'C07_no_incomplete_file_ever / C07_fetch_only_on_miss / C07_cache_hit / C07_loaded_equals_direct / C07_recovery / C07_latest_is_greatest / C07_clear'
+THEOREM = 'C07_no_incomplete_file_ever / C07_fetch_only_on_miss / C07_cache_hit / C07_loaded_equals_direct / C07_recovery / C07_latest_is_greatest / C07_clear / C07_names / C07_names_distinct'
 
 HEADER = '''From Coq Require Import String List.
 From Hpotk Require Import Base.Result Base.Emit Store.Model Corr.C07.
@@ -32,7 +34,9 @@ def cfault(p):
         return 'FetchRaises'
     if p == 'read':
         return 'ReadRaises'
-    return '(WriteFails 1)'
+    if p[0] == 'close':
+        return f'(CloseFails {int(p[1])})'
+    return f'(WriteFails {int(p[1])})'
 
 
 def cobs(snap, outcomes):
@@ -77,8 +81,7 @@ def render(case, obs):
             i += 1
         t, r, k = case['victim']
         cmds.append(f'CAct (Spawn {cloader(t, r, None, i)})')
-        # a kill between write() and close(): the temporary file exists and is not complete - the model state before its write step
-        cmds += [f'CAct (Step {i})'] * (4 if k == 'close' else k - 1)
+        cmds += [f'CAct (Step {i})'] * (k - 1)
         cmds.append(f'CAct (Kill {i})')
         cmds.append(f'CListing {cobs(obs["snap1"], obs["outcomes1"])}')
         i += 1
@@ -149,10 +152,10 @@ def gen(chk):
     for relative in (False, True):
         for before in ([], [['load', 0, R0[2]]], [['load', 0, R0[0]]], [['load', 1, RELEASES[1][0]]]):
             hit = before == [['load', 0, R0[2]]]
-            for k in list(range(1, 3 if hit else 8)) + ([] if hit else ['close']):
+            for k in range(1, 3 if hit else 9):
                 cases.append({'kind': 'kill', 'relative': relative, 'releases': RELEASES, 'before': before, 'victim': [0, R0[2], k]})
     # races
-    all14 = list(interleavings(7, 7))
+    all14 = list(interleavings(8, 8))
     if thorough:
         scheds = all14
     else:
@@ -166,7 +169,7 @@ def gen(chk):
         cases.append({'kind': 'race', 'relative': rng.random() < 0.3, 'releases': RELEASES,
                       'loaders': [[0, R0[2], plans[0]], [0, R0[0] if other else R0[2], plans[1]]], 'schedule': s})
     for _ in range(200 if thorough else 40):
-        s = [rng.randrange(3) for _ in range(21)]
+        s = [rng.randrange(3) for _ in range(24)]
         cases.append({'kind': 'race', 'relative': False, 'releases': RELEASES,
                       'loaders': [[0, R0[2], None], [0, R0[2], rng.choice([None, 'read'])], [0, R0[2], None]], 'schedule': s})
     # latest tag
@@ -194,11 +197,11 @@ def run(chk):
     chk.traces = sum(1 for c in cases if c['kind'] != 'latest')
     chk.exhaustive = True
     chk.extra['race_schedules'] = sum(1 for c in cases if c['kind'] == 'race')
-    chk.rule = ('ALL histories of length <= 2 over 12 operations {load a release / latest / another type, load with fetch / read / write fault, full loader, clear(type) x3, clear(), '
+    chk.rule = ('ALL histories of length <= 2 over 13 operations {load a release / latest / another type, load with fetch / read / write / flush-at-close fault, full loader, clear(type) x3, clear(), '
                 'resolve path} x {absolute, relative} store + random histories of length 3-8: after EVERY operation the store is snapshot (cache files and their bytes, other '
                 'files, fetch log, outcome of every load) and compared with the model; a kill (os._exit in a forked child) before EVERY I/O boundary of a load with nothing / the '
                 'same / another release cached, followed by a recovery load; races of two loaders of the same release: all interleavings with <= 2 preemptions + 120 random '
-                '(thorough: all 3432), races with faulty loaders / other releases / three loaders, the store snapshot after EVERY boundary; latest-tag selection on 68 tag lists')
+                '(thorough: all 12870 interleavings of 8 + 8 boundaries), races with faulty loaders / other releases / three loaders, the store snapshot after EVERY boundary; latest-tag selection on 68 tag lists')
     if failing:
         report(chk, cases, obs, failing)
 
